@@ -53,7 +53,7 @@ def check(case, ctx):
     cg = ctx.cg
     op = case["op"]
     cd = case["c"]
-    c = G.build(cg, cd, "graph")
+    c = G.build(cg, cd, "sparse" if len(cd["nodes"]) % 3 == 0 else "graph")
     before = Net.of(c)
     k = case["k"]
     ctx.count(f"op:{op}")
